@@ -219,7 +219,7 @@ def bounded(tier, seed):
     res = native("rates.py", {"seed": seed, "n": 1 if tier == "quick" else 6}, timeout=3000)
     if not res.get("ok"):
         raise RuntimeError(f"native driver failed: {res}")
-    return [{"name": "interpreted_vs_compiled_vs_expression", "bound": "all 8 equation classes with random parameters and operator-specific (inhomogeneous) BCs on 2 grids: evolution_rate vs make_pde_rhs on numpy/numba vs a generic PDE built from expression(s); expression PDEs with constants, time and coordinate dependence, several fields, bc_ops per variable",
+    return [{"name": "interpreted_vs_compiled_vs_expression", "bound": "all 8 equation classes with random parameters and operator-specific (inhomogeneous) BCs on 2 grids: evolution_rate vs make_pde_rhs on numpy/numba vs a generic PDE built from expression(s) (with one homogeneous and with one inhomogeneous condition for all operators -- the text cannot carry operator-specific conditions); expression PDEs with constants, time and coordinate dependence, several fields, bc_ops per variable",
              "cases": res["cases"], "failures": res["failures"]}]
 
 
